@@ -20,7 +20,22 @@ def remove_unused_self_cls(source: str) -> str:
     """
     root = core.parse(source)
 
+    # A function that is looked up on a class (A.m, cls.m) gets no instance, the caller passes it.
+    class_names = {classdef.name for classdef in core.walk(root, ast.ClassDef)} | {"cls"}
+    looked_up_on_class = {
+        node.attr
+        for node in core.walk(root, ast.Attribute(value=ast.Name))
+        if node.value.id in class_names
+    }
+
     for classdef in parsing.iter_classdefs(root):
+        # Methods that the class body reads by name are handed to something, like property(getter)
+        read_in_class_body = {
+            name.id
+            for node in classdef.body
+            if not isinstance(node, (ast.FunctionDef, ast.AsyncFunctionDef))
+            for name in core.walk(node, ast.Name(ctx=ast.Load))
+        }
         class_non_instance_methods = {
             funcdef.name
             for funcdef in parsing.iter_funcdefs(classdef)
@@ -33,6 +48,10 @@ def remove_unused_self_cls(source: str) -> str:
                 continue
             if parsing.is_magic_method(funcdef):
                 continue  # called by the interpreter and by libraries, some pass the instance
+            if funcdef.name in read_in_class_body:
+                continue
+            if funcdef.name in looked_up_on_class and funcdef.name not in class_non_instance_methods:
+                continue  # called with an explicit instance
             if any(
                 core.match_template(
                     dec,
